@@ -264,7 +264,8 @@ class Summary:
                     # buffer[a::s] = <sequence>: an extended-slice store needs exactly as many elements as slots
                     a0, st_, slots = self.slice_piece(t.slice, "store slice@%d" % st.lineno)
                     if not B.is_zero(sq.total() - slots):
-                        raise Unknown("slice store of %r elements into %r slots" % (B.norm(sq.total()), B.norm(slots)))
+                        raise Resize("slice store of %r elements into %r slots at line %d" % (B.norm(sq.total()), B.norm(slots), st.lineno),
+                                     B.const_of(sq.total()), B.const_of(slots), t.slice.step is None)
                     off = Aff(0)
                     for s0, d, T in sq.pieces:
                         self.families.append(Family(self.buffer, a0 + Aff.of(off).scale(st_), st_, self.data, s0, d, T))
@@ -411,6 +412,35 @@ class Summary:
         return fn
 
 
+class Resize(Unknown):
+    """A slice store whose element count differs from its slot count."""
+
+    def __init__(self, msg, elements, slots, plain):
+        Unknown.__init__(self, msg)
+        self.elements, self.slots, self.plain = elements, slots, plain
+
+
+def _resize_witness(fi, fd, consts, rho):
+    """A concrete length at which one of the two functions stores k elements into j != k slots of its buffer: Python
+    then resizes the buffer (plain slice; the data changes length) or raises ValueError (extended slice)."""
+    for n in range(rho, 24, 2):
+        for name, fn in (("interleave", fi), ("deinterleave", fd)):
+            def task(fn=fn, n=n):
+                try:
+                    Summary(fn, Aff(n), consts).run()
+                except Resize as r:
+                    return r
+                except Unknown:
+                    return None
+                return None
+            for _p, st, r in B.explore(task):
+                if st == "ok" and isinstance(r, Resize) and r.elements is not None and r.slots is not None and r.elements != r.slots:
+                    return "witness length %d: %s stores %d element(s) into %d slot(s) of its buffer: %s" % (
+                        n, name, r.elements, r.slots,
+                        "the buffer, and with it the data, changes length" if r.plain else "Python raises ValueError")
+    return None
+
+
 def inverse_permutations(rep, index, m):
     fi, fd = m.functions["interleave"], m.functions["deinterleave"]
     n_paths = 0
@@ -424,6 +454,13 @@ def inverse_permutations(rep, index, m):
             return L, si, sd, half
         try:
             paths = B.explore(task)
+        except Resize as e:
+            w = _resize_witness(fi, fd, m.consts, rho)
+            if w is None:
+                raise AnalysisError("weave clause undecidable on this tree: %s" % e)
+            rep.ob("C10.W3 each-function-applies-one-permutation", "len = 2m+%d" % rho, False, w)
+            n_paths += 1
+            continue
         except Unknown as e:
             raise AnalysisError("weave clause undecidable on this tree: %s" % e)
         for p, st, val in paths:
